@@ -544,6 +544,41 @@ def containers(ctx, drv, rng, impls, quick):
                     _container_case(ctx, "VirtualMemoryArray", name, codec, w, h, depth, 1, d, o, g,
                                     reqs, meta, ("cmp.vmaSet", hx(d), codec, w, h, depth),
                                     lambda st: ("cmp.vmaGet", hx(st), codec, *rect, depth), rect=rect)
+    # --- a container is a variable, not a one-shot: write, read, write other pixels, read again on the SAME object
+    # (a read must reflect the last write, also when the new stream has the same length as the old one)
+    for (w, h, depth, codec, version, ch, kind) in jobs[:: (3 if quick else 1)]:
+        pn = row_bytes(w, depth) * h
+        if pn == 0:
+            continue
+        a = content(rng, kind, pn)
+        b = bytes((x + 1) % 256 for x in a) if codec in (RAW, ZIP) else bytes(reversed(a))
+        b = b if b != a else bytes((x ^ 0x55) for x in a)
+        hdr = FileHeader(version=version, channels=1, height=h, width=w, depth=depth,
+                         color_mode=ColorMode.BITMAP if depth == 1 else ColorMode.MULTICHANNEL)
+        objs = [("ChannelData", ChannelData(compression=codec),
+                 lambda o, d: o.set_data(d, w, h, depth, version), lambda o: bytes(o.get_data(w, h, depth, version))),
+                ("ImageData", ImageData(compression=codec),
+                 lambda o, d: o.set_data([d], hdr), lambda o: bytes(o.get_data(hdr)[0]))]
+        if version == 1:
+            objs.append(("VirtualMemoryArray", VirtualMemoryArray(),
+                         lambda o, d: o.set_data((w, h), d, depth, codec), lambda o: bytes(o.get_data())))
+        for cname, obj, setter, getter in objs:
+            def seq():
+                setter(obj, a)
+                r1 = getter(obj)
+                setter(obj, b)
+                r2 = getter(obj)
+                return r1, r2
+            ctx.count(("rewrite", cname, codec, w, h, depth, version, a), nontrivial=True)
+            try:
+                r1, r2 = seq()
+            except Exception:  # noqa  (refusals are judged by the single-shot cases above)
+                continue
+            if r1 == a and r2 != b:
+                ctx.fail(f"C04/container/{cname}/read-after-second-write-returns-stale-data/{CODEC_NAME[codec]}",
+                         f"{cname}: set_data(A); get_data(); set_data(B); get_data() does not return B",
+                         dict(container=cname, codec=codec, w=w, h=h, depth=depth, version=version, a=hx(a), b=hx(b)),
+                         short(r2), short(b))
     ans = drv.batch(reqs)
     for a, (kind, cont, name, expect, info) in zip(ans, meta):
         ctx.corr_cases += 1
